@@ -148,15 +148,17 @@ def decode (beginString : Bytes) (tbl : Tbl) (raw : Bytes) : DecRes :=
       | some i => i + 5
       | none => msg.length
     -- frame ends with its CheckSum(10) field
-    let nextMsg := match findSub cksumPat msg with
+    let closedAt : Option Nat := match findSub cksumPat msg with
       | some ci => (match findChar SOH (msg.drop (ci + 1)) with
-          | some e => e + (ci + 1) + 1
-          | none => nextMsg0)
-      | none => nextMsg0
+          | some e => some (e + (ci + 1) + 1)
+          | none => none)
+      | none => none
+    let nextMsg := closedAt.getD nextMsg0
     let encoded := msg.take nextMsg
     let fields0 := splitOn SOH encoded
     let fields := if fields0.getLast?.getD [] == [] then fields0.dropLast else fields0
-    if fields.length < 3 then .none validIdx else
+    -- fewer than 3 fields: wait for more bytes – unless a complete CheckSum field already ended the frame
+    if fields.length < 3 then .none (if closedAt.isSome then validIdx + nextMsg else validIdx) else
     match fields with
     | f0 :: f1 :: _ =>
       match splitEq f0 with
